@@ -183,6 +183,7 @@ def run(tier):
         "msm_lengths": sorted(set(e["n"] for e in evs if e["ev"] == "Msm")),
         "fft_sizes": sorted(set(e["n"] for e in evs if e["ev"] == "Fft" and "n" in e)),
         "thread_pools": sorted(set(e["threads"] for e in evs)),
+        "samples": [{k: v for k, v in evs[0].items() if k in ("ev", "curve", "n", "scal", "base", "threads", "k", "j")}],
         "exhaustive": False,
     })
     rep.assumptions += ["scalars and bases follow the named patterns of Msm.tla (mirrored in the driver)",
